@@ -23,6 +23,11 @@
      BW,<i>,<k>:<target>:<tag>+...[/...]
                     dbus_pending_call_block (call i) while a helper thread writes the batches (separated by '/') to the
                     peer's socket, one every 15 ms, as raw pre-marshalled bytes (the helper makes no libdbus call)
+     BT,<i>,<arg>,<s.us>/<s.us>/...,<batch>/<batch>/... ('-' = nothing arrives, poll times out; 'x' = no batches)
+                    dbus_pending_call_block (call i) under a scripted clock: while it runs, gettimeofday() (which is what
+                    _dbus_get_monotonic_time uses in this build) returns the listed readings one after the other, and poll()
+                    on the client's socket never sleeps: if nothing is readable the next batch is written to the peer's
+                    socket (or, for '-', poll returns 0 at once).  Every timeout handed to poll() is printed (q<ms>).
      X              peer closes its end (after draining what the client sent)
      L              dbus_connection_close (client)
    Result: per event "<observations>|<per-call state>", joined by ';'.
@@ -32,6 +37,9 @@
 #include <unistd.h>
 #include <signal.h>
 #include <pthread.h>
+#include <poll.h>
+#include <sys/time.h>
+#include <sys/syscall.h>
 #include <dbus/dbus-connection-internal.h>
 
 #define MAXCALLS 16
@@ -224,7 +232,7 @@ static void ev_send (const char *a1, const char *a2)
 {
   DBusMessage *m; DBusPendingCall *p = NULL; int ms; int nf;
   if (ncalls >= MAXCALLS) { emit ("!toomany"); return; }
-  ms = strcmp (a1, "inf") == 0 ? DBUS_TIMEOUT_INFINITE : atoi (a1);
+  ms = strcmp (a1, "inf") == 0 ? DBUS_TIMEOUT_INFINITE : atoi (a1);   /* -1 = DBUS_TIMEOUT_USE_DEFAULT */
   nf = atoi (a2);
   m = new_call_msg ();
   if (use_shadow) dbus_message_set_serial (m, shadow);
@@ -237,6 +245,7 @@ static void ev_send (const char *a1, const char *a2)
   calls[ncalls].p = p;
   calls[ncalls].serial = dbus_message_get_serial (m);
   emit ("s%u", calls[ncalls].serial);
+  if (calls[ncalls].to) emit ("i%d", dbus_timeout_get_interval (calls[ncalls].to)); else emit ("i-");
   if (nf) dbus_pending_call_set_notify (p, notify, (void *) (long) ncalls, NULL);
   ncalls++;
   dbus_message_unref (m);
@@ -342,6 +351,82 @@ static void ev_block_with (int i, char *spec)
   nbw = 0;
 }
 
+/* ---- block under a scripted clock ---- */
+#define MAXCLK 16
+static int bt_active, bt_cfd = -1, bt_pfd = -1;
+static struct timeval bt_clk[MAXCLK]; static int bt_nclk, bt_ci;
+static struct batch bt_arr[MAXBATCH]; static int bt_narr, bt_ai;
+
+int gettimeofday (struct timeval *tv, void *tz)
+{
+  if (bt_active && tv)
+    {
+      if (bt_ci < bt_nclk) *tv = bt_clk[bt_ci++];
+      else { *tv = bt_clk[bt_nclk - 1]; tv->tv_sec += 1000000; emit ("!clock"); }   /* script too short: let the wait give up */
+      return 0;
+    }
+  return (int) syscall (SYS_gettimeofday, tv, tz);
+}
+
+int poll (struct pollfd *fds, nfds_t n, int timeout)
+{
+  if (bt_active && n == 1 && fds[0].fd == bt_cfd)
+    {
+      int r;
+      emit ("q%d", timeout);
+      r = (int) syscall (SYS_poll, fds, n, 0);
+      if (r != 0) return r;
+      if (bt_ai < bt_narr)
+        {
+          struct batch *b = &bt_arr[bt_ai++];
+          size_t off = 0;
+          if (b->len == 0) { if (timeout < 0) { emit ("!hang"); fflush (stdout); puts (out); _exit (97); } return 0; }
+          while (off < b->len) { ssize_t w = write (bt_pfd, b->buf + off, b->len - off); if (w <= 0) break; off += (size_t) w; }
+          return (int) syscall (SYS_poll, fds, n, 1000);
+        }
+      if (timeout < 0) { emit ("!hang"); puts (out); fflush (stdout); _exit (97); }
+      return 0;
+    }
+  return (int) syscall (SYS_poll, fds, n, timeout);
+}
+
+static void ev_block_timed (int i, char *clocks, char *arrivals)
+{
+  char *c, *save = NULL; int k;
+  bt_nclk = bt_ci = bt_narr = bt_ai = 0;
+  for (c = strtok_r (clocks, "/", &save); c && bt_nclk < MAXCLK; c = strtok_r (NULL, "/", &save))
+    {
+      long a = 0, b = 0; sscanf (c, "%ld.%ld", &a, &b);
+      bt_clk[bt_nclk].tv_sec = a; bt_clk[bt_nclk].tv_usec = b; bt_nclk++;
+    }
+  if (strcmp (arrivals, "x") != 0 && sconn && dbus_connection_get_is_connected (sconn) && dbus_connection_get_unix_fd (sconn, &bt_pfd))
+    {
+      char *bs, *save1 = NULL;
+      for (bs = strtok_r (arrivals, "/", &save1); bs && bt_narr < MAXBATCH; bs = strtok_r (NULL, "/", &save1))
+        {
+          bt_arr[bt_narr].buf = NULL; bt_arr[bt_narr].len = 0;
+          if (strcmp (bs, "-") != 0)
+            {
+              char *it, *save2 = NULL;
+              for (it = strtok_r (bs, "+", &save2); it; it = strtok_r (NULL, "+", &save2)) batch_add (&bt_arr[bt_narr], it);
+            }
+          bt_narr++;
+        }
+    }
+  if (!dbus_connection_get_unix_fd (client, &bt_cfd)) bt_cfd = -1;
+  if (i < ncalls && bt_nclk > 0)
+    {
+      bt_active = 1;
+      dbus_pending_call_block (calls[i].p);
+      bt_active = 0;
+    }
+  /* whatever the peer had not written yet is written now */
+  for (k = bt_ai; k < bt_narr; k++)
+    { size_t off = 0; while (off < bt_arr[k].len) { ssize_t w = write (bt_pfd, bt_arr[k].buf + off, bt_arr[k].len - off); if (w <= 0) break; off += (size_t) w; } }
+  for (k = 0; k < bt_narr; k++) free (bt_arr[k].buf);
+  bt_narr = 0;
+}
+
 static int argi (const char *s) { return atoi (s); }
 
 static void run_event (char *ev)
@@ -360,6 +445,7 @@ static void run_event (char *ev)
     case 'C': { int i = argi (f[1]); if (i < ncalls) dbus_pending_call_cancel (calls[i].p); break; }
     case 'B':
       if (f[0][1] == 'W') { if (nf >= 3) ev_block_with (argi (f[1]), f[2]); break; }
+      if (f[0][1] == 'T') { if (nf >= 5) ev_block_timed (argi (f[1]), f[3], f[4]); break; }
       { int i = argi (f[1]); if (i < ncalls) dbus_pending_call_block (calls[i].p); break; }
     case 'D': { DBusDispatchStatus s = dbus_connection_dispatch (client); emit ("d%d", (int) s); break; }
     case 'T':
